@@ -29,6 +29,9 @@ class Abort(Exception):
     pass
 
 
+SHUFFLE = [False]
+
+
 def build_file(g, d, n=160):
     """Synthetic level-2 file with a PHASE column; rows carry a tag in PHA/MC_PHA."""
     import evfile
@@ -54,6 +57,15 @@ def build_file(g, d, n=160):
         cols = h['EVENTS'].data.columns + fits.ColDefs([fits.Column(name='PHASE', array=phase, format='E')])
         h['EVENTS'] = fits.BinTableHDU.from_columns(cols, header=h['EVENTS'].header)
         h.writeto(path, overwrite=True)
+    if SHUFFLE[0]:
+        # a file whose rows are not in time order (segments merged in another order, rows sorted by another column): the predicate is per row
+        perm = numpy.concatenate([numpy.arange(n // 2, n), numpy.arange(0, n // 2)])
+        sw = g.choice(n - 1, 10, replace=False)
+        perm[sw], perm[sw + 1] = perm[sw + 1].copy(), perm[sw].copy()
+        with fits.open(path) as h:
+            for ext in ('EVENTS', 'MONTE_CARLO'):
+                h[ext].data = h[ext].data[perm]
+            h.writeto(path, overwrite=True)
     reg = os.path.join(d, 'circle.reg')
     open(reg, 'w').write(reg_text())
     return path, reg
@@ -385,6 +397,11 @@ def run_cases(chk, n, tagname, budget=1):
         set_centre(centre)
         _run_cases(chk, g, max(1, n * budget // 2))
     set_centre(0)
+    SHUFFLE[0] = True
+    try:
+        _run_cases(chk, g, max(1, n * budget // 4))
+    finally:
+        SHUFFLE[0] = False
 
 
 def _run_cases(chk, g, n):
